@@ -291,10 +291,16 @@ def oracle(c):
         # the hodograph has the same parameter domain (knot vector U[1:-1]); its constructor normalises
         lo, hi = d['kv'][d['p']], d['kv'][d['n']]
         hlo, hhi = hd['kv'][hd['p']], hd['kv'][hd['n']]
-        uu = hlo + (u - lo) / (hi - lo) * (hhi - hlo)
-        got = S.eval_ref(hd, [uu])
-        scale = (hhi - hlo) / (hi - lo)
-        if [x for x in got] != [w for w in want] and [x * scale for x in got] != want:
+        if (hlo, hhi) != (lo, hi):
+            # the constructor builds a fresh object whose knot-vector setter normalises U[1:-1]: the hodograph is
+            # then parametrised over another interval than the curve (recorded finding F-02c); apart from that
+            # re-parametrisation it must still carry the derivative
+            uu = hlo + (u - lo) / (hi - lo) * (hhi - hlo)
+            if S.eval_ref(hd, [uu]) != want:
+                return "derivative_curve: even at the affinely mapped parameter %s the hodograph gives %s, exact first derivative %s" % (fr(uu), show_list(S.eval_ref(hd, [uu])), show_list(want))
+            return "derivative_curve returns a hodograph parametrised over [%s,%s], the curve's domain is [%s,%s]: evaluated at the same parameter it is not the derivative" % (fr(hlo), fr(hhi), fr(lo), fr(hi))
+        got = S.eval_ref(hd, [u])
+        if [x for x in got] != [w for w in want]:
             return "derivative_curve evaluated at %s gives %s, exact first derivative %s" % (fr(u), show_list(got), show_list(want))
         return None
     if c.kind == 'hodograph-surface':
@@ -308,7 +314,14 @@ def oracle(c):
         ex = J.surface_ders(d, u, v, 1)
         for name, h, want in (('u', hs[0], ex[1][0]), ('v', hs[1], ex[0][1]), ('uv', hs[2], ex[1][1])):
             hd = S.from_obj(h)
-            got = S.eval_ref(hd, _map(d, hd, [u, v]))
+            doms = [(kv[p], kv[n]) for (p, kv, n) in S.dirs(d)]
+            hdoms = [(kv[p], kv[n]) for (p, kv, n) in S.dirs(hd)]
+            if doms != hdoms:
+                if S.eval_ref(hd, _map(d, hd, [u, v])) != want:
+                    return "derivative_surface[%s]: even at the affinely mapped parameters the hodograph gives %s, exact %s" % (name, show_list(S.eval_ref(hd, _map(d, hd, [u, v]))), show_list(want))
+                return "derivative_surface[%s] is parametrised over %s, the surface's domain is %s: evaluated at the same parameters it is not the derivative" % (
+                    name, [tuple(map(fr, x)) for x in hdoms], [tuple(map(fr, x)) for x in doms])
+            got = S.eval_ref(hd, [u, v])
             if got != want:
                 return "derivative_surface[%s] at (%s,%s) gives %s, exact %s" % (name, fr(u), fr(v), show_list(got), show_list(want))
         return None
@@ -401,6 +414,8 @@ def _oracle_tn(c, d, o):
 
 
 def classify(c, why):
+    if c.kind in ('hodograph-curve', 'hodograph-surface') and 'parametrised over' in why:
+        return 'F-02c'
     if c.kind == 'hodograph-surface' and why == "derivative_surface raised ZeroDivisionError":
         d = c.data['shape']
         for (p, kv, n) in S.dirs(d):
@@ -421,5 +436,17 @@ def witness(fid):
             operations.derivative_surface(s)
         except ZeroDivisionError:
             return "ZeroDivisionError"
+        return None
+    if fid == 'F-02c':
+        from geomdl import BSpline, operations
+        c = BSpline.Curve(normalize_kv=False)
+        c.degree = 2
+        c.ctrlpts = [[q(0), q(0)], [q(1), q(2)], [q(3), q(1)]]
+        c.knotvector = qs([0, 0, 0, 2, 2, 2])
+        h = operations.derivative_curve(c)
+        dh = [x.q if hasattr(x, 'q') else F(x) for x in h.evaluate_single(q(1))]
+        dc = [x.q if hasattr(x, 'q') else F(x) for x in c.derivatives(q(1), 1)[1]]
+        if dh != dc:
+            return "hodograph(1) = %s, C'(1) = %s (hodograph domain %s)" % (show_list(dh), show_list(dc), [fr(x) for x in h.domain])
         return None
     return None
